@@ -231,6 +231,9 @@ impl<C: NtpClock> Server<C> {
             return Err(ServerAction::Ignore);
         }
 
+        // Set for requests that carry NTS fields we could not authenticate.
+        let mut failed_nts = false;
+
         // Try and parse the message
         let (packet, cookie) = match NtpPacket::deserialize(message, self.keyset.as_ref()) {
             Ok((packet, cookie)) => {
@@ -256,6 +259,7 @@ impl<C: NtpClock> Server<C> {
                     );
                     return Err(ServerAction::Ignore);
                 }
+                failed_nts = true;
                 // Don't care about decryption errors when denying anyway
                 if action != ServerResponse::Deny {
                     action = ServerResponse::NTSNak;
@@ -288,7 +292,7 @@ impl<C: NtpClock> Server<C> {
             return Err(ServerAction::Ignore);
         }
 
-        let nts = cookie.is_some() || action == ServerResponse::NTSNak;
+        let nts = cookie.is_some() || failed_nts;
 
         // ignore non-NTS packets when configured to require NTS
         if let (false, Some(non_nts_action)) = (nts, self.config.require_nts) {
